@@ -1,6 +1,6 @@
 From Coq Require Import List NArith String Bool.
 Import ListNotations.
-From TV Require Import Lib.Obs C48.Model C48.Spec.
+From TV Require Import Lib.Obs C48.Model C48.Spec C48.ModelP4.
 
 (* one signature: (method, scheme, userinfo, host, port, path, params, consumer secret, token secret or no token) *)
 Definition sign_in := (list N * list N * option (list N) * list N * option (list N) * list N
@@ -10,16 +10,27 @@ Definition url_in := (list N * list N * option (list N) * list N * option (list 
 (* (consumer key, consumer secret, access token key, access token secret) *)
 Definition cred_in := (list N * list N * list N * list N)%type.
 
+(* (scheme, userinfo, host, port, path) of the class's token URL *)
+Definition loc_in := (list N * option (list N) * list N * option (list N) * list N)%type.
+
 Inductive input :=
 | ISign (v10a : bool) (i : sign_in)                       (* _oauth_signature / _oauth10a_signature *)
 | IReq (v10a : bool) (u : url_in) (user : list (list N * list N)) (c : cred_in)
        (time : N) (nonce : list N)                         (* OAuthMixin._oauth_request_parameters *)
-| IEsc (s : list N).                                       (* _oauth_escape *)
+| IEsc (s : list N)                                        (* _oauth_escape *)
+| IReqTok (v10a : bool) (l : loc_in) (cbu : option (list N)) (joined : list N)
+          (extra : list (list N * list N)) (ck cs : list N) (time : N) (nonce : list N)
+                                                           (* OAuthMixin._oauth_request_token_url *)
+| IAccTok (v10a : bool) (l : loc_in) (c : cred_in) (verifier : option (list N)) (time : N) (nonce : list N).
+                                                           (* OAuthMixin._oauth_access_token_url *)
 
 Definition SIG_TAG : string := "HmacSha1Base64".
 Definition pair_obs (kv : text * text) : obs :=
   if text_eqb (fst kv) K_SIGNATURE then OList [OBytes (fst kv); OTag SIG_TAG]
   else OList [OBytes (fst kv); OBytes (snd kv)].
+
+(* the harness replaces the (verified) signature value in the produced URL by "@" *)
+Definition SIG_PLACEHOLDER : text := [64%N].
 
 Definition run_case (i : input) : obs :=
   match i with
@@ -30,6 +41,14 @@ Definition run_case (i : input) : obs :=
              OBytes (request_base m sc (authority ui host port) path ck tk t n user);
              OList (map pair_obs (request_parameters [] ck tk t n))]
   | IEsc s => OBytes (esc s)
+  | IReqTok v (sc, ui, host, port, path) cbu joined extra ck cs t n =>
+      OList [OBytes (reqtok_key v cs);
+             OBytes (reqtok_msg v sc ui host port path ck t n cbu joined extra);
+             OBytes (reqtok_url SIG_PLACEHOLDER v sc ui host port path ck t n cbu joined extra)]
+  | IAccTok v (sc, ui, host, port, path) (ck, cs, tk, tsec) vf t n =>
+      OList [OBytes (acctok_key v cs tsec);
+             OBytes (acctok_msg sc ui host port path ck tk t n vf);
+             OBytes (acctok_url SIG_PLACEHOLDER sc ui host port path ck tk t n vf)]
   end.
 
 (* the property: the (key, text) handed to HMAC-SHA1 are the ones RFC 5849 defines; for a request
@@ -68,4 +87,19 @@ Definition check_case (i : input) (o : obs) : bool :=
                     && Nat.eqb (List.length r) (encoded_length s)
       | _ => false
       end
+  | IReqTok v (sc, ui, host, port, path) cbu joined extra ck cs t n =>
+      (* signed: the five protocol parameters, and for 1.0a the callback and extra_params (which may
+         replace them); key: consumer secret and an empty token secret *)
+      let cb := match cbu with
+                | None => []
+                | Some u => if text_eqb u OOB then [(K_CALLBACK, OOB)]
+                            else if Nat.eqb (List.length u) 0 then [] else [(K_CALLBACK, joined)]
+                end in
+      let signed := if v then spec_signed (reqtok_base ck t n ++ cb) extra else reqtok_base ck t n in
+      obs_eqb o (OList [OBytes (spec_key cs []); OBytes (spec_base GET sc host port path signed);
+                        OBytes (reqtok_url SIG_PLACEHOLDER v sc ui host port path ck t n cbu joined extra)])
+  | IAccTok v (sc, ui, host, port, path) (ck, cs, tk, tsec) vf t n =>
+      let signed := base_args ck tk t n ++ match vf with Some x => [(K_VERIFIER, x)] | None => [] end in
+      obs_eqb o (OList [OBytes (spec_key cs tsec); OBytes (spec_base GET sc host port path signed);
+                        OBytes (acctok_url SIG_PLACEHOLDER sc ui host port path ck tk t n vf)])
   end.
